@@ -178,6 +178,10 @@ def run(ctx):
             want_fed = [None] + srv_toks
             if prov.fed != want_fed[:len(prov.fed)]:
                 ctx.violation("server tokens are not fed back in order", inp, [None if f is None else hx(f) for f in prov.fed], [None if f is None else hx(f) for f in want_fed])
+            # … for as long as the security context is incomplete: a bind that returns has a complete context
+            if out.startswith("ok") and not prov.ctx.complete and all(produced):      # (an empty token ends the loop by design)
+                ctx.violation("bind() returns although the security context is still incomplete (its remaining tokens were never sent)", inp,
+                              f"{len(prov.fed)} step(s), complete={prov.ctx.complete}", "stepped until complete")
             # stops when complete
             done_at = next((i for i, (_, d) in enumerate(sc) if d), None)
             if done_at is not None and len(prov.fed) > done_at + 1:
